@@ -1,9 +1,439 @@
-import AriadneModel.Model.InputField
-import AriadneModel.Spec.CoerceInput
-import AriadneModel.Spec.PydInput
+/-
+  C06 — Input models accept exactly the schema's input values, with its defaults.
+
+  "For every input object type the generated model can be built, by Python field name or by GraphQL
+   name, from every value the schema's own input coercion accepts in canonical form (IDs as strings,
+   enum values by name; null list items where the item type is nullable included), and it refuses a
+   value that lacks a field the schema requires (non-null without default).  For every field with a
+   schema default, an instance created without that field reads back a value equal to the coerced
+   schema default, and the value the server finally sees for it equals that default."
+
+  Objects of the statements:
+    * `Model/InputField.lean`   the generator (`parse_input_field_type`, default expressions, alias merge)
+    * `Spec/CoerceInput.lean`   graphql-core's `coerce_input_value` / `value_from_ast`  (validated, not verified)
+    * `Spec/PydInput.lean`      pydantic on the generated class, CPython on the emitted defaults (validated, not verified)
+    * `Model/InputRel.lean`     canonical form, re-keying by Python names, `related`
+
+  `C06_full` is FALSE on the pinned tree (`C06_full_false`, finding C06-F1; the other findings have
+  their own model-level witnesses below).  `C06_partial` is the property outside the finding
+  triggers, for values / lists / objects of any size and nesting depth.  Its hypothesis `Proved_06`
+  (`InputRel.related`: the generated module mirrors the schema field by field and every default
+  evaluates) is decidable and is evaluated by the driver on every generated case; that the generator
+  establishes it whenever no trigger fires is covered by that measurement, not by a theorem.
+  `ReadsBackDefaults` (should-tier) is proved in two halves: `default_not_validated` (an absent field
+  reads back exactly the evaluated default expression) and `default_readback` (for every default literal
+  WITHOUT object literals — scalars, enums, null, lists and nested lists of those — the emitted
+  expression evaluates to a value equal to `coerceLit`, the coerced schema default); defaults with
+  object literals are covered by the `readback` correspondence op and the oracle only.
+-/
+import AriadneModel.Proofs.C06Accept
+import AriadneModel.Proofs.C06Defaults
+import AriadneModel.Proofs.C06Readback
+
+set_option linter.unusedSimpArgs false
+set_option linter.unusedVariables false
+set_option linter.unusedSectionVars false
 
 namespace Ariadne.C06
+open Ariadne
+open Ariadne.InputGen (TypeRef Lit PyExpr InputField TypeDef)
+open Ariadne.InputField Ariadne.CoerceInput Ariadne.PydInput Ariadne.InputRel
 
-theorem stub : True := trivial
+/-! ## the setting -/
+
+/-- everything the property quantifies over besides the value: configuration, type definitions,
+    and the two external parameters of the pydantic reference semantics -/
+structure Setting where
+  cfg : Cfg
+  defs : List TypeDef
+  acc : String → J → Bool := fun _ _ => false
+  lax : Lax := Lax.none
+
+def Setting.S (x : Setting) : CSchema := mkSchema x.defs
+def Setting.env (x : Setting) : Env := mkEnv x.cfg x.defs x.acc x.lax
+def Setting.kinds (x : Setting) : String → Kind := kindOf x.cfg x.defs
+
+/-- the schema is one graphql-core builds: type names and field names unique, every default
+    literal valid for its type -/
+def validDefs (defs : List TypeDef) : Bool :=
+  strDistinct (defs.map TypeDef.name) &&
+  defs.all fun
+    | .input _ fs =>
+      strDistinct (fs.map (·.name)) &&
+        fs.all (fun f => match f.default with
+          | some lit => isOk (coerceLit (mkSchema defs) f.type lit)
+          | none => true)
+    | _ => true
+
+def Valid (x : Setting) : Prop := validDefs x.defs = true
+
+def keys (kvs : List (String × J)) : List String := kvs.map (·.1)
+
+/-! ## the property at full strength -/
+
+/-- every canonical value coercion accepts builds the model, by GraphQL names and by Python names -/
+def Accepts (x : Setting) : Prop :=
+  ∀ n fs, x.S.find? n = some (.input n fs) → ∀ v c, v ≠ .null →
+    coerce x.S (.named n) v = .ok c → canonical x.env x.kinds x.S (.named n) v = true →
+      (∃ m, construct x.env n v = .ok m) ∧ (∃ m, construct x.env n (rekey x.env x.S true (.named n) v) = .ok m)
+
+/-- a value lacking a field the schema requires is refused -/
+def RefusesLacking (x : Setting) : Prop :=
+  ∀ n fs, x.S.find? n = some (.input n fs) → ∀ cf ∈ fs, cf.type.isNonNull = true → cf.default = none →
+    ∀ kvs, cf.name ∉ keys kvs → pyName x.cfg.snake cf.name ∉ keys kvs → ∃ e, construct x.env n (.obj kvs) = .error e
+
+/-- an instance created without a defaulted field reads back the coerced schema default -/
+def ReadsBackDefaults (x : Setting) : Prop :=
+  ∀ n fs, x.S.find? n = some (.input n fs) → ∀ cf ∈ fs, ∀ d, cf.default = some (.ok d) →
+    ∀ kvs m, cf.name ∉ keys kvs → pyName x.cfg.snake cf.name ∉ keys kvs → construct x.env n (.obj kvs) = .ok m →
+      ∃ pv, attr m (pyName x.cfg.snake cf.name) = some pv ∧ pvMatches x.env pv d = true
+
+/-- … and what the server makes of the dumped instance carries that default -/
+def ServerSeesDefaults (x : Setting) : Prop :=
+  ∀ n fs, x.S.find? n = some (.input n fs) → ∀ cf ∈ fs, ∀ d, cf.default = some (.ok d) →
+    ∀ kvs m, cf.name ∉ keys kvs → pyName x.cfg.snake cf.name ∉ keys kvs → construct x.env n (.obj kvs) = .ok m →
+      ∀ c, coerce x.S (.named n) (dump x.env m) = .ok c → ∃ out, c = .obj out ∧ J.lookup cf.name out = some d
+
+def C06_full : Prop :=
+  ∀ x : Setting, Valid x → Accepts x ∧ RefusesLacking x ∧ ReadsBackDefaults x ∧ ServerSeesDefaults x
+
+/-! ## the findings, on the model -/
+
+def cfg0 : Cfg := ⟨true, []⟩
+
+/-- does the construction fail with exactly this error? -/
+def failsWith (r : Except VErr PV) (e : VErr) : Bool :=
+  match r with
+  | .error e' => e' == e
+  | .ok _ => false
+
+def coercesTo (r : Except CErr J) (j : J) : Bool :=
+  match r with
+  | .ok j' => j' == j
+  | .error _ => false
+
+/-- C06-F1: `[Int]!` — the schema accepts `[1, null]`, the model does not -/
+def f1 : Setting := { cfg := cfg0, defs := [.input "In" [⟨"l", .nonNull (.list (.named "Int")), none, false⟩]] }
+def f1Value : J := .obj [("l", .arr [.num 1 0, .null])]
+
+set_option maxRecDepth 100000 in
+theorem nullable_item_rejected :
+    isOk (coerce f1.S (.named "In") f1Value) = true ∧ canonical f1.env f1.kinds f1.S (.named "In") f1Value = true
+    ∧ isOk (construct f1.env "In" f1Value) = false := by decide
+
+set_option maxRecDepth 100000 in
+theorem C06_full_false : ¬ C06_full := by
+  intro h
+  obtain ⟨hacc, _⟩ := h f1 (by unfold Valid; decide)
+  have hfind : f1.S.find? "In" = some (.input "In" [⟨"l", .nonNull (.list (.named "Int")), none⟩]) := by rfl
+  have hco : coerce f1.S (.named "In") f1Value = .ok (.obj [("l", .arr [.num 1 0, .null])]) := by rfl
+  obtain ⟨⟨m, hm⟩, _⟩ := hacc "In" _ hfind f1Value _ (by intro h; cases h) hco (by decide)
+  have : isOk (construct f1.env "In" f1Value) = false := by decide
+  rw [hm] at this
+  cases this
+
+/-- C06-F2: `o: In2 = {e: B}` — evaluating the default raises AttributeError (`In2.B`) -/
+def f2 : Setting := { cfg := cfg0, defs :=
+  [.enum "E" ["A", "B"], .input "In2" [⟨"e", .named "E", none, false⟩],
+   .input "In" [⟨"o", .named "In2", some (.obj [("e", .enum "B")]), false⟩]] }
+
+set_option maxRecDepth 100000 in
+theorem enum_in_object_default_raises :
+    validDefs f2.defs = true ∧ failsWith (construct f2.env "In" (.obj [])) (.defaultRaised (.attributeError "In2.B")) = true := by decide
+
+/-- C06-F3: `e: [E] = [None]` — `E.None` is not Python: the module does not import -/
+def f3 : Setting := { cfg := cfg0, defs :=
+  [.enum "E" ["A", "None"], .input "In" [⟨"e", .list (.named "E"), some (.list [.enum "None"]), false⟩]] }
+
+set_option maxRecDepth 100000 in
+theorem keyword_enum_default_breaks_module :
+    validDefs f3.defs = true ∧ f3.env.broken = true ∧ failsWith (construct f3.env "In" (.obj [])) .importError = true := by decide
+
+/-- C06-F4: `l: [In2] = [{b: 1}]` — the default reads back as a list of `FieldInfo` objects -/
+def f4 : Setting := { cfg := cfg0, defs :=
+  [.input "In2" [⟨"b", .named "Int", none, false⟩],
+   .input "In" [⟨"l", .list (.named "In2"), some (.list [.obj [("b", .int 1)]]), false⟩]] }
+
+def isFieldInfoList : Except VErr PV → Bool
+  | .ok (.model _ [(_, .list [.fieldInfo])] _) => true
+  | _ => false
+
+set_option maxRecDepth 100000 in
+theorem object_in_list_default_is_fieldinfo :
+    validDefs f4.defs = true ∧ isFieldInfoList (construct f4.env "In" (.obj [])) = true := by decide
+
+/-- C06-F5: `i: ID = 5` reads back `5`, the coerced schema default is `"5"` -/
+def f5 : Setting := { cfg := cfg0, defs := [.input "In" [⟨"i", .named "ID", some (.int 5), false⟩]] }
+
+def readsBack (x : Setting) (cls py : String) : Option PV :=
+  match construct x.env cls (.obj []) with
+  | .ok m => attr m py
+  | .error _ => none
+
+def isNum5 : Option PV → Bool
+  | some (.num 5 0) => true
+  | _ => false
+
+set_option maxRecDepth 100000 in
+theorem coercing_default_mismatch :
+    validDefs f5.defs = true ∧ coercesTo (coerceLit f5.S (.named "ID") (.int 5)) (.str "5") = true ∧ isNum5 (readsBack f5 "In" "i") = true
+    ∧ pvMatches f5.env (.num 5 0) (.str "5") = false := by decide
+
+/-- C06-F6: `j: JSON = {a: 1}` — `globals()[""]`: KeyError -/
+def f6 : Setting := { cfg := cfg0, defs :=
+  [.scalar "JSON", .input "In" [⟨"j", .named "JSON", some (.obj [("a", .int 1)]), false⟩]] }
+
+set_option maxRecDepth 100000 in
+theorem object_default_on_scalar_raises :
+    validDefs f6.defs = true ∧ failsWith (construct f6.env "In" (.obj [])) (.defaultRaised (.keyError "")) = true := by decide
+
+/-! ## outside the triggers -/
+
+def okSetting0 : Setting := { cfg := cfg0, defs := [.enum "E" ["A", "class"]] }
+
+
+/-- `Supported_06`: no finding trigger fires (one decidable predicate per finding, `InputField.supported`) -/
+def Supported_06 (x : Setting) : Prop := supported x.cfg x.defs = true
+
+/-- named conjunct, see the header: what the generator establishes between schema and module -/
+def Proved_06 (x : Setting) : Prop := related x.kinds x.S x.env = true
+
+/-- C06-F1's trigger is exactly about the annotation: off ⇒ `Optional[...]` at precisely the nullable
+    positions (for every wrapper nesting) -/
+theorem ann_faithful (kinds : String → Kind) (t : TypeRef) (h : trigNullableListItem t = false) :
+    annOf kinds t true = annIdeal kinds t true :=
+  annOf_faithful_top kinds t h
+
+/-- must: a generated field is required iff its type is non-null and it has no default; its alias is
+    the GraphQL name exactly when the Python name differs -/
+theorem required_iff (cfg : Cfg) (kinds : String → Kind) (f : InputField) (d : FieldDecl)
+    (h : genField cfg kinds f = some d) :
+    (d.required = true ↔ (f.type.isNonNull = true ∧ f.default = none))
+    ∧ d.py = pyName cfg.snake f.name
+    ∧ d.value.alias = (if pyName cfg.snake f.name != f.name then some f.name else none) := by
+  obtain ⟨a, ft, _, _, hpy, hdef, hal⟩ := genField_default cfg kinds f d h
+  refine ⟨?_, hpy, hal⟩
+  unfold FieldDecl.required
+  rw [hdef, Option.isNone_iff_eq_none]
+  exact fieldDefault_none_iff ft f
+
+/-- must: whatever the schema's input coercion accepts in canonical form builds the model — by GraphQL
+    names and by Python names, for values of any size and nesting depth -/
+theorem input_accepts_coerced (x : Setting) (hp : Proved_06 x) : Accepts x := by
+  intro n fs hin v c hnn hc hcan
+  exact C06Accept.construct_accepts hp n fs hin v c hnn hc hcan
+
+theorem all2_mem {α β : Type} (r : α → β → Bool) : ∀ (as : List α) (bs : List β), all2 r as bs = true →
+    ∀ a ∈ as, ∃ b ∈ bs, r a b = true := by
+  intro as
+  induction as with
+  | nil => intro bs _ a ha; cases ha
+  | cons a0 as ih =>
+    intro bs h a ha
+    cases bs with
+    | nil => simp [all2] at h
+    | cons b0 bs =>
+      simp only [all2, Bool.and_eq_true] at h
+      rcases List.mem_cons.mp ha with rfl | ha'
+      · exact ⟨b0, List.mem_cons_self .., h.1⟩
+      · obtain ⟨b, hb, hr⟩ := ih bs h.2 a ha'
+        exact ⟨b, List.mem_cons_of_mem _ hb, hr⟩
+
+/-- the model field that belongs to a schema field -/
+theorem field_of (x : Setting) (hp : Proved_06 x) (n : String) (fs : List CField) (hin : x.S.find? n = some (.input n fs))
+    (cf : CField) (hcf : cf ∈ fs) :
+    ∃ c sp, x.env.class? n = some c ∧ namesOK c.fields = true ∧ sp ∈ c.fields ∧ sp.key = cf.name
+      ∧ (sp.default = none ↔ (cf.default = none ∧ cf.type.isNonNull = true)) := by
+  obtain ⟨htr, _⟩ := C06Accept.related_type hp n _ hin
+  simp only [typeRel, Bool.and_eq_true, beq_iff_eq] at htr
+  cases hc : x.env.class? n with
+  | none => simp [hc] at htr
+  | some c =>
+    simp only [hc, Bool.and_eq_true] at htr
+    obtain ⟨_, h2, hn⟩ := htr
+    obtain ⟨sp, hsp, hr⟩ := all2_mem _ fs c.fields h2 cf hcf
+    refine ⟨c, sp, rfl, hn, hsp, C06Accept.fieldRel_key hr, ?_⟩
+    simp only [fieldRel, Bool.and_eq_true, beq_iff_eq] at hr
+    obtain ⟨⟨_, hreq⟩, _⟩ := hr
+    rw [← Option.isNone_iff_eq_none, hreq]
+    simp [Option.isNone_iff_eq_none]
+
+/-- must: a value that mentions a required field neither by its GraphQL name nor by the Python name of
+    its model field is refused -/
+theorem lacking_required_refused (x : Setting) (hp : Proved_06 x) (n : String) (fs : List CField)
+    (hin : x.S.find? n = some (.input n fs)) (cf : CField) (hcf : cf ∈ fs)
+    (hnn : cf.type.isNonNull = true) (hnd : cf.default = none) :
+    ∃ sp : FieldSpec, sp.key = cf.name ∧ ∀ kvs, cf.name ∉ keys kvs → sp.py ∉ keys kvs → ∃ e, construct x.env n (.obj kvs) = .error e := by
+  obtain ⟨c, sp, hc, hn, hsp, hkey, hreq⟩ := field_of x hp n fs hin cf hcf
+  refine ⟨sp, hkey, ?_⟩
+  intro kvs h1 h2
+  exact C06Defaults.missing_required_refused x.env n c hc hn sp hsp (hreq.mpr ⟨hnd, hnn⟩) kvs (by rw [hkey]; exact h1) h2
+
+/-- should (`server_sees_default`): an instance built without a defaulted field does not dump that
+    field, and the server's coercion of the dump carries the schema default for it -/
+theorem server_sees_default (x : Setting) (hv : Valid x) (hp : Proved_06 x) (n : String) (fs : List CField)
+    (hin : x.S.find? n = some (.input n fs)) (hdist : strDistinct (fs.map (·.name)) = true)
+    (cf : CField) (hcf : cf ∈ fs) (d : J) (hdef : cf.default = some (.ok d)) :
+    ∃ sp : FieldSpec, sp.key = cf.name ∧ ∀ kvs m, cf.name ∉ keys kvs → sp.py ∉ keys kvs → construct x.env n (.obj kvs) = .ok m →
+      ∀ c, coerce x.S (.named n) (dump x.env m) = .ok c → ∃ out, c = .obj out ∧ J.lookup cf.name out = some d := by
+  obtain ⟨cl, sp, hc, hn, hsp, hkey, _⟩ := field_of x hp n fs hin cf hcf
+  refine ⟨sp, hkey, ?_⟩
+  intro kvs m h1 h2 hm c hco
+  obtain ⟨out, hd, hnot⟩ := C06Defaults.unset_not_dumped x.env n cl hc hn sp hsp kvs (by rw [hkey]; exact h1) h2 m hm
+  rw [hd] at hco
+  exact C06Defaults.server_applies_default x.S n fs hin hdist cf hcf d hdef out (by rw [← hkey]; exact hnot) c hco
+
+/-- should (half of `default_readback`): pydantic does not validate defaults — an absent field reads
+    back exactly the evaluated default expression -/
+theorem default_not_validated (env : Env) (cls : String) (c : ClassSpec) (hc : env.class? cls = some c)
+    (hn : namesOK c.fields = true) (sp : FieldSpec) (hsp : sp ∈ c.fields) (d : PV) (hd : sp.default = some (.ok d))
+    (kvs : List (String × J)) (h1 : sp.key ∉ keys kvs) (h2 : sp.py ∉ keys kvs) (m : PV)
+    (hm : construct env cls (.obj kvs) = .ok m) : attr m sp.py = some d := by
+  unfold construct at hm
+  by_cases hb : env.broken = true
+  · simp [hb] at hm
+  · simp only [hb, Bool.false_eq_true, if_false, validate, core, hc] at hm
+    cases hdf : defaultFailure c.fields kvs with
+    | some e => simp [hdf] at hm
+    | none =>
+    simp only [hdf] at hm
+    cases hv : validateKvs env c.fields kvs kvs with
+    | error e => simp [hv] at hm
+    | ok vals =>
+      simp only [hv] at hm
+      cases hf : PydInput.finish c.fields vals with
+      | error e => simp [hf] at hm
+      | ok fields =>
+        simp only [hf, Except.ok.injEq] at hm
+        subst hm
+        obtain ⟨_, hpd, _⟩ := C06Accept.namesOK_parts hn
+        have hnone : lookupPV sp.py vals = none := by
+          apply C06Defaults.lookupPV_none_of_not_mem
+          intro hmem
+          obtain ⟨sp', hsp', hpy, hor⟩ := C06Defaults.validateKvs_keys env c.fields kvs kvs vals hv sp.py hmem
+          have : sp' = sp := C06Accept.strDistinct_inj (fun (x : FieldSpec) => x.py) c.fields hpd sp' hsp' sp hsp hpy
+          subst this
+          rcases hor with h | h
+          · exact h1 h
+          · exact h2 h
+        simp only [attr]
+        -- `finish` puts the default at the field's position; Python names are distinct
+        clear hv hc
+        revert fields
+        generalize c.fields = specs at hsp hpd
+        induction specs with
+        | nil => cases hsp
+        | cons f specs ih =>
+          intro fields hf
+          simp only [List.map, strDistinct, Bool.and_eq_true, Bool.not_eq_true', List.contains_eq_mem,
+            decide_eq_false_iff_not] at hpd
+          simp only [PydInput.finish] at hf
+          cases hr : PydInput.finish specs vals with
+          | error e => simp [hr] at hf
+          | ok rest =>
+            simp only [hr] at hf
+            rcases List.mem_cons.mp hsp with rfl | hsp'
+            · simp only [hnone, hd, Except.ok.injEq] at hf
+              subst hf
+              simp [lookupPV]
+            · have hne : ¬ f.py = sp.py := by
+                intro e
+                apply hpd.1
+                rw [e]
+                exact List.mem_map.mpr ⟨sp, hsp', rfl⟩
+              have htail := ih hsp' hpd.2 rest hr
+              cases hl : lookupPV f.py vals with
+              | some pv =>
+                simp only [hl, Except.ok.injEq] at hf
+                subst hf
+                simp only [lookupPV, hne, if_false]
+                exact htail
+              | none =>
+                simp only [hl] at hf
+                cases hdf : f.default with
+                | none => simp [hdf] at hf
+                | some r =>
+                  cases r with
+                  | error e => simp [hdf] at hf
+                  | ok d' =>
+                    simp only [hdf, Except.ok.injEq] at hf
+                    subst hf
+                    simp only [lookupPV, hne, if_false]
+                    exact htail
+
+/-- the default pydantic is given for a generated field is the emitted expression, evaluated -/
+theorem emitted_default (prev : Env) (cfg : Cfg) (kinds : String → Kind) (f : InputField) (d : FieldDecl)
+    (h : genField cfg kinds f = some d) :
+    ∃ ft, (specOf prev d).default = (InputGen.fieldDefault .sdl ft f).map (evalDefault prev)
+      ∧ ∀ lit, f.default = some lit → InputGen.fieldDefault .sdl ft f = some (InputGen.constValue ft lit false false) := by
+  obtain ⟨a, ft, _, _, _, hdef, _⟩ := genField_default cfg kinds f d h
+  refine ⟨ft, by simp [specOf, hdef], ?_⟩
+  intro lit hl
+  simp [InputGen.fieldDefault, hl]
+
+/-- should (`default_readback`): for every default literal without object literals (scalars, enums by
+    name, null, lists and nested lists of those, at a type they are written for) the emitted Python
+    expression evaluates, and its value equals the coerced schema default `coerceLit` -/
+theorem default_readback (s : CSchema) (env : Env) (ft : String)
+    (henum : ∀ vals, s.find? ft = some (.enum ft vals) → C06Readback.EnumOk env ft vals)
+    (lit : Lit) (t : TypeRef) (d : J) (hp : C06Readback.plainLit s ft t lit = true) (h : coerceLit s t lit = .ok d) :
+    ∃ pv, evalDefault env (InputGen.constValue ft lit false false) = .ok pv ∧ pvMatches env pv d = true :=
+  C06Readback.default_readback s env ft henum lit t d hp h
+
+/-- non-vacuity of `default_readback`: `[[E!]] = [[A], [], null]` is a plain literal that coerces -/
+example : C06Readback.plainLit okSetting0.S "E" (.list (.list (.nonNull (.named "E"))))
+      (.list [.list [.enum "A"], .list [], .null]) = true
+    ∧ isOk (coerceLit okSetting0.S (.list (.list (.nonNull (.named "E")))) (.list [.list [.enum "A"], .list [], .null])) = true := by
+  decide
+
+/-- non-vacuity of the enum hypothesis of `default_readback`: the module generated for `enum E { A class }` -/
+example : C06Readback.EnumOk okSetting0.env "E" ["A", "class"] :=
+  ⟨[("A", "A"), ("class_", "class")], by rfl, by decide⟩
+
+/-- the property outside the finding triggers (see the header for `Proved_06`): acceptance by both
+    kinds of names, refusal of values lacking a required field, and the server-side default -/
+theorem C06_partial (x : Setting) (hv : Valid x) (hs : Supported_06 x) (hp : Proved_06 x) :
+    Accepts x
+    ∧ (∀ n fs, x.S.find? n = some (.input n fs) → ∀ cf ∈ fs, cf.type.isNonNull = true → cf.default = none →
+        ∃ sp : FieldSpec, sp.key = cf.name ∧ ∀ kvs, cf.name ∉ keys kvs → sp.py ∉ keys kvs → ∃ e, construct x.env n (.obj kvs) = .error e)
+    ∧ (∀ n fs, x.S.find? n = some (.input n fs) → strDistinct (fs.map (·.name)) = true → ∀ cf ∈ fs, ∀ d,
+        cf.default = some (.ok d) →
+        ∃ sp : FieldSpec, sp.key = cf.name ∧ ∀ kvs m, cf.name ∉ keys kvs → sp.py ∉ keys kvs → construct x.env n (.obj kvs) = .ok m →
+          ∀ c, coerce x.S (.named n) (dump x.env m) = .ok c → ∃ out, c = .obj out ∧ J.lookup cf.name out = some d) :=
+  ⟨input_accepts_coerced x hp,
+   fun n fs hin cf hcf hnn hnd => lacking_required_refused x hp n fs hin cf hcf hnn hnd,
+   fun n fs hin hdist cf hcf d hdef => server_sees_default x hv hp n fs hin hdist cf hcf d hdef⟩
+
+/-! ## non-vacuity: a setting with every wrapper shape that is right, aliases, enum / list / object
+    defaults, a recursive input — it is valid, supported, and `related` holds; a nested value with a
+    null list item and a keyword-named field is accepted by coercion and is canonical -/
+
+def okSetting : Setting := { cfg := cfg0, defs :=
+  [.enum "E" ["A", "class"],
+   .scalar "JSON",
+   .input "In2" [⟨"e", .named "E", some (.enum "A"), false⟩, ⟨"b", .nonNull (.named "Int"), none, false⟩],
+   .input "In" [⟨"camelCase", .list (.named "Int"), some (.list [.int 1, .null]), false⟩,
+                ⟨"class", .nonNull (.list (.nonNull (.named "ID"))), none, false⟩,
+                ⟨"o", .named "In2", some (.obj [("b", .int 1)]), false⟩,
+                ⟨"self", .list (.list (.named "In")), none, false⟩,
+                ⟨"j", .named "JSON", none, false⟩]] }
+
+def okValue : J :=
+  .obj [("class", .arr [.str "7"]), ("camelCase", .arr [.null, .num 2 0]),
+        ("self", .arr [.null, .arr [.null, .obj [("class", .arr []), ("o", .obj [("b", .num 3 0), ("e", .str "class")])]]]),
+        ("j", .obj [("any", .arr [.bool true])])]
+
+set_option maxRecDepth 1000000 in
+example : Valid okSetting ∧ Supported_06 okSetting ∧ Proved_06 okSetting := by
+  refine ⟨?_, ?_, ?_⟩
+  · unfold Valid; decide
+  · unfold Supported_06; decide
+  · unfold Proved_06; decide
+
+set_option maxRecDepth 1000000 in
+example : isOk (coerce okSetting.S (.named "In") okValue) = true
+    ∧ canonical okSetting.env okSetting.kinds okSetting.S (.named "In") okValue = true
+    ∧ isOk (construct okSetting.env "In" okValue) = true
+    ∧ isOk (construct okSetting.env "In" (rekey okSetting.env okSetting.S true (.named "In") okValue)) = true := by decide
 
 end Ariadne.C06
